@@ -7,6 +7,47 @@ MODULES = ['TlsModel.Props.C13']
 FAMS = ['dh', 'ec_params', 'ecdh', 'dsig', 'dsig_old', 'content_sig', 'content_sig_dual', 'named_groups']
 
 
+def cross_flag_cases(ctx):
+    """a signature encoded in one form, read with the *other* flag: the caller's flag alone selects the reading, so the
+    result is what that reading gives on these bytes - worked out here from the bytes themselves (a value, or no value
+    when the length that reading finds is not available); hash/sign pairs drawn from the registered TLS 1.2 pairs too"""
+    rng = ctx.rng
+    out = []
+    for _ in range(4000 if ctx.thorough else 600):
+        w = core.Writer()
+        kx = rng.choice(('dh', 'ecdh'))
+        c = (enc.gen_dh if kx == 'dh' else enc.gen_ecdh)(rng, w, rng.choice((4, 40)))
+        start = w.pos()
+        enc_new = rng.random() < .6
+        L = rng.choice((0, 1, 2, 32, 64, 255, 256, 257, 513, 515, 769, 1025, 1027, 1539, rng.randrange(0, 2000)))
+        if enc_new:
+            h, sg = (rng.randrange(1, 7), rng.randrange(1, 4)) if rng.random() < .6 else (rng.randrange(256), rng.randrange(256))
+            w.u(1, h); w.u(1, sg); w.u(2, L)
+        else:
+            w.u(2, L)
+        body = rng.randbytes(L)
+        if not enc_new and L >= 2 and rng.random() < .4:     # let the other reading's length field fit exactly now and then
+            body = (L - 2).to_bytes(2, 'big') + body[2:]
+        w.raw(body)
+        w.raw(rng.randbytes(rng.choice((0, 0, 1, 4, 300))))
+        buf = w.bytes()
+        sig = buf[start:]
+        flag = 0 if enc_new else 1             # the other reading
+        want = None
+        if flag == 0:
+            n = int.from_bytes(sig[:2], 'big') if len(sig) >= 2 else None
+            if n is not None and n <= len(sig) - 2:
+                want = 'ok %d (P %s (DSig none %s))' % (len(sig) - 2 - n, c, core.span(start + 2, n))
+        else:
+            if len(sig) >= 4:
+                n = int.from_bytes(sig[2:4], 'big')
+                if n <= len(sig) - 4:
+                    want = 'ok %d (P %s (DSig (some (P %d %d)) %s))' % (len(sig) - 4 - n, c, sig[0], sig[1], core.span(start + 4, n))
+        case = enc.Case('cross_flag/%s' % ('new_as_legacy' if enc_new else 'legacy_as_new'), ('content_sig', kx, str(flag)), buf, [], None, expect=want)
+        out.append(case)
+    return out
+
+
 def run(ctx):
     core.build_harness()
     ok = common.lean_step(ctx, MODULES)
@@ -42,10 +83,14 @@ def run(ctx):
                 trunc.append(enc.Case(c.fam + '/alltrunc', c.op, c.buf[:p], [], None))
     common.run_differential(ctx, trunc, common.proj_trunc,
                             classify=lambda c, r: 'a strict prefix of the structure must not yield a value' if r.startswith('ok ') else None)
+    cf = cross_flag_cases(ctx)
+    common.run_exact(ctx, [c for c in cf if c.expect])
+    common.run_differential(ctx, [c for c in cf if not c.expect], common.proj_trunc,
+                            classify=lambda c, r: 'read in the form the flag selects, the declared signature length is not available: no value may come out' if r.startswith('ok ') else None)
     common.run_cg(ctx, ('dh ', 'ec_params ', 'ecdh ', 'named_groups ', 'dsig', 'content_sig '), common.proj_trunc)
     common.lean_failure_violation(ctx, ok)
     return ctx.finish(LEVEL,
-        rule='ServerDHParams / ECParameters (named and explicit-prime) / ServerECDHParams / DigitallySigned (both forms) / parse_content_and_signature (both flag values) / named groups: independent-encoder values with boundary field lengths (exact), suffixes, corruptions (differential), all 256 curve types (class: rejected with an error unless 1 or 3), named groups swept, strict prefixes (class: never a value; model and implementation must agree on asking for more input vs rejecting - the quantifier of the property names truncations); signatures that are well-formed under both readings (the flag alone decides); distinct = (family, outcome shape)',
+        rule='ServerDHParams / ECParameters (named and explicit-prime) / ServerECDHParams / DigitallySigned (both forms) / parse_content_and_signature (both flag values) / named groups: independent-encoder values with boundary field lengths (exact), suffixes, corruptions (differential), all 256 curve types (class: rejected with an error unless 1 or 3), named groups swept, strict prefixes (class: never a value; model and implementation must agree on asking for more input vs rejecting - the quantifier of the property names truncations); signatures that are well-formed under both readings, and signatures encoded in one form read with the other flag (the flag alone decides: exact value, or no value when the length found by that reading is not available); distinct = (family, outcome shape)',
         checker_cmd='cd /verif/lean && lake build TlsModel.Props.C13', assumptions=[])
 
 
